@@ -94,7 +94,11 @@ class C13(Prop):
         for i in range(16 if tier == "quick" else 160):
             bad = r.choice(NAMES)
             first = [(bad, True)] + [(n, r.random() < 0.7) for n in NAMES if n != bad and r.random() < 0.5]
-            def pick():
+            def pick(_n=[0]):
+                _n[0] += 1
+                if i < 4:                      # always run: each handler replacing itself, alone and together
+                    return dict([{"error_handler": True}, {"keyboard": False}, {"handler": True}, {"throttle": 10}][(i + (_n[0] - 1) * 2) % 4]) if i < 2 else \
+                        dict({"error_handler": True} if _n[0] == 1 else {"handler": True}) if i == 2 else dict({"throttle": 10} if _n[0] == 1 else {"handler": True})
                 x = inner[i % len(inner)] if r.random() < 0.7 else r.choice(inner)
                 if x is None:
                     return {"pathset": wp([(bad, True)] + [(n, True) for n in NAMES if n != bad and r.random() < 0.5])}
@@ -110,6 +114,9 @@ class C13(Prop):
             # some watcher back-ends name the path in the error they return: still one runtime error per failing attempt
             if c["fail_watch"] and r.random() < 0.5:
                 c["fail_with_path"] = True
+            # ... and some fail for lack of resources (the inotify watch limit): a runtime error like the others
+            if c["fail_watch"]:
+                c["fail_kind"] = ["generic", "maxfiles", "enospc"][i % 3]
         return cases
 
     def correspond(self, tier, seed, deep=False):
@@ -249,6 +256,24 @@ class C13(Prop):
                     c.failing.append({"case": case, "impl": {"actions": o["actions"], "events_sent": o["events_sent"]},
                                       "clause": "C13_handler_reconfig: an event sent after a change made from within a handler was not handled by the "
                                                 "action handler (in force) -- dead-locked or lost"})
+                # a handler replaced from within itself: the invocation in progress is the old one's, every later one the new one's
+                for kind, key, log in (("error_handler", "on_error", o["errors"]), ("handler", "on_action", o["actions"])):
+                    reps = [ch for ch in case["changes"] if ch.get(kind)]
+                    if reps and all(key in ch for ch in reps) and not (kind == "handler" and kb) and not any("gap_ms" in ch and ch.get(kind) for ch in case["changes"]):
+                        gen = 0
+                        for i, entry in enumerate(log):
+                            g = int(entry.split(":")[0][1:])
+                            if g != gen:
+                                c.failing.append({"case": case, "impl": {"log": log}, "expected": f"invocation {i} handled by generation {gen}",
+                                                  "clause": "C13_handler_reconfig: a handler replaced from within a handler did not take over from the next "
+                                                            "invocation on (or took over the invocation in progress)"})
+                                break
+                            gen += sum(1 for ch in reps if ch[key] == i)
+                # ... and whoever replaced it, the error reported for the last change (made after every replacement) goes to the newest handler
+                nrep = sum(1 for ch in case["changes"] if ch.get("error_handler"))
+                if len(o["errors"]) >= 2 and int(o["errors"][-1].split(":")[0][1:]) != nrep:
+                    c.failing.append({"case": case, "impl": {"errors": o["errors"]}, "expected": f"last error handled by generation {nrep}",
+                                      "clause": "C13_handler_reconfig: an error handler installed at run time does not receive the later errors"})
                 # a replacement takes effect for the next invocation, not for the one in progress
                 gens = [int(a.split(":")[0][1:]) for a in o["actions"]] + [int(e.split(":")[0][1:]) for e in o["errors"]]
                 if any(g >= 100 for g in gens):
